@@ -158,7 +158,9 @@ func redOp(
 			if variant == "i" {
 				return opValue(i(f, seed)), nil
 			}
-			return opValue(ic(func(ctx context.Context, a, v int, i int64) (context.Context, int) { return tagCtx(ctx, cb.tag), f(a, v, i) }, seed)), nil
+			return opValue(ic(func(ctx context.Context, a, v int, i int64) (context.Context, int) {
+				return tagCtx(ctx, cb.tag), f(a, v, i)
+			}, seed)), nil
 		}
 		f, ok := red[cb.name]
 		if !ok {
@@ -280,12 +282,12 @@ func buildToMap(p []int, variant string, cbs []Cb) (applyFn, error) {
 	return nil, errArity(variant)
 }
 
-func nop()                                {}
-func nopV(int)                            {}
-func nopE(error)                          {}
-func nopCtx(context.Context)              {}
-func nopCtxV(context.Context, int)        {}
-func nopCtxE(context.Context, error)      {}
+func nop()                           {}
+func nopV(int)                       {}
+func nopE(error)                     {}
+func nopCtx(context.Context)         {}
+func nopCtxV(context.Context, int)   {}
+func nopCtxE(context.Context, error) {}
 
 var opSpecs []OpSpec
 
@@ -337,9 +339,13 @@ func init() {
 		{"ThrowIfEmpty", v1, [][]int{{4}}, "", simple(1, func(p []int) intOp {
 			return ro.ThrowIfEmpty[int](func() error { return userErr{p[0]} })
 		}), true, nil},
-		{"Materialize", v1, [][]int{{}}, "", simple(0, func(p []int) func(ro.Observable[int]) ro.Observable[ro.Notification[int]] { return ro.Materialize[int]() }), false, nil},
+		{"Materialize", v1, [][]int{{}}, "", simple(0, func(p []int) func(ro.Observable[int]) ro.Observable[ro.Notification[int]] {
+			return ro.Materialize[int]()
+		}), false, nil},
 		{"MaterializeDematerialize", v1, [][]int{{}}, "", simple(0, func(p []int) intOp {
-			return func(src ro.Observable[int]) ro.Observable[int] { return ro.Dematerialize[int]()(ro.Materialize[int]()(src)) }
+			return func(src ro.Observable[int]) ro.Observable[int] {
+				return ro.Dematerialize[int]()(ro.Materialize[int]()(src))
+			}
 		}), true, nil},
 		{"ToSlice", v1, [][]int{{}}, "", simple(0, func(p []int) func(ro.Observable[int]) ro.Observable[[]int] { return ro.ToSlice[int]() }), false, nil},
 		{"ToMap", v4, [][]int{{}}, "key", buildToMap, false, nil},
